@@ -124,27 +124,6 @@ func vRepoUniverse(withLeftover bool) *vRepoFixture {
 	return f
 }
 
-func vKeysUnder(s *vStore, prefix string) int {
-	n := 0
-	for _, k := range s.keys {
-		if len(k) >= len(prefix) && k[:len(prefix)] == prefix {
-			n++
-		}
-	}
-	return n
-}
-
-func vAssertSame(before map[string]string, s *vStore, prefixes []string, label string) {
-	for k, v := range before {
-		for _, p := range prefixes {
-			if len(k) >= len(p) && k[:len(p)] == p {
-				nv, ok := s.data[k]
-				vAssert(ok && string(nv) == v, label)
-			}
-		}
-	}
-}
-
 // VerifC09DeleteRepo: deleting r removes everything of r and nothing of r2, and terminates.
 func VerifC09DeleteRepo() {
 	vBudget(3000000) // a correct run takes well under a million instructions
